@@ -23,6 +23,9 @@ type Lexer struct {
 	priceStage int
 	// input[noColonFrom:noColonUntil] is known to hold neither a colon nor an account terminator
 	noColonFrom, noColonUntil int
+	// looksLikeVirtualAccount asked from virtualFrom ran up to virtualUntil and found a colon or not
+	virtualFrom, virtualUntil int
+	virtualColon              bool
 }
 
 const (
@@ -797,16 +800,25 @@ func (l *Lexer) looksLikeDate() bool {
 }
 
 func (l *Lexer) looksLikeVirtualAccount() bool {
-	for i := l.pos + 1; i < len(l.input); i++ {
+	// the answer of the last look-ahead holds for every position it passed over: a run of
+	// opening parentheses is looked through once, not once per parenthesis
+	if l.pos >= l.virtualFrom && l.pos < l.virtualUntil {
+		return l.virtualColon
+	}
+	i := l.pos + 1
+	colon := false
+	for ; i < len(l.input); i++ {
 		ch := l.input[i]
 		if ch == ')' || ch == '\n' {
-			return false
+			break
 		}
 		if ch == ':' {
-			return true
+			colon = true
+			break
 		}
 	}
-	return false
+	l.virtualFrom, l.virtualUntil, l.virtualColon = l.pos, i, colon
+	return colon
 }
 
 var directiveSet = map[string]struct{}{
